@@ -615,6 +615,11 @@ theorem amtPos_apply {st st' : State} {op : Op} {r : Res} (hinv : Inv st)
         · rw [hg] at ho'; cases ho'
         · rw [hl] at ho'; cases ho'; show 0 < ob.assetAmt - oa.assetAmt; omega
       · exact hpos i o' (by rw [← hoth i hia hib]; exact ho')
+  | fill m wb f fu ids total =>
+    obtain ⟨kv, hc, hk⟩ := wk h
+    rw [hk]
+    obtain ⟨_, _, os, _, _, rfl⟩ := fillOrders_eq hc
+    exact hpos.of_sub fun i v hv => fillFold_get_sub os _ _ v hv
   | commit m a amt =>
     obtain ⟨kv, hc, hk⟩ := wk h
     rw [hk]
@@ -685,5 +690,59 @@ theorem settle_frame_all_histories (ops : List Op) (hl : ops.length < 2 ^ 64) {s
   · exact Or.inl hc
   · exact Or.inr (Or.inl ⟨hg, l, hl', hrest.2.2.2.2.2.2.2.2.2.2.1⟩)
   · exact Or.inr (Or.inr ⟨hg, l, hl', hrest.2.2.2.2.2.2.2.2.2.2.1⟩)
+
+/-! ### user settlements: `FillBids` / `FillAsks` -/
+
+/-- **Frame of an accepted user settlement** (`MsgFillBids`: `wb = true`, `MsgFillAsks`: `wb = false`): every
+listed id was an open order of the wanted type in the market, not the filler's own; afterwards NONE of them
+has a record — whatever their asset denoms: a seller may fill bids for several asset denoms with one
+message —, every other order record, every payment record and every commitment record is what it was, and
+the index invariant holds again (so no lookup — by market, owner, asset or external id — lists a filled
+order any more: `byMarket_exact` / `byOwner_exact` / `byAsset_exact` / `getOrderByExternalID_iff`). -/
+theorem fillOrders_frame {s s' : Store} (hinv : IndexInv s) {m : UInt32} {wb : Bool} {f : Bytes} {fu : Bool}
+    {ids : List UInt64} {total : List (Bytes × Nat)} (h : fillOrders s m wb f fu ids total = some s') :
+    (∀ id ∈ ids, ∃ o, s.get (keyOrder id) = some (.order o) ∧ o.isBid = wb ∧ o.market = m ∧
+      ¬ (o.owner = f ∧ o.ownerUp = fu)) ∧
+    (∀ id ∈ ids, s'.get (keyOrder id) = none) ∧
+    (∀ id, id ∉ ids → s'.get (keyOrder id) = s.get (keyOrder id)) ∧
+    (∀ src e, s'.get (keyPayment src e) = s.get (keyPayment src e)) ∧
+    (∀ m' a, s'.get (keyCommitment m' a) = s.get (keyCommitment m' a)) ∧
+    IndexInv s' := by
+  have hh := (indexInvF_iff.mp hinv).1
+  have ht := touches_fillOrders h
+  have hi' := inv_fillOrders hinv h
+  obtain ⟨_, _, os, hos, _, rfl⟩ := fillOrders_eq h
+  obtain ⟨hm, hall⟩ := getOrdersToFill_spec hos
+  refine ⟨fun id hid => ?_, fun id hid => fillFold_get_listed os s id (by rw [hm]; exact hid),
+    fun id hid => fillFold_get_other os s id (by rw [hm]; exact hid),
+    fun src e => ht.eq_of_head (head_keyPayment src e) (by simp [orderHeads]),
+    fun m' a => ht.eq_of_head (head_keyCommitment m' a) (by simp [orderHeads]), hi'⟩
+  rw [← hm] at hid
+  obtain ⟨o, ho, rfl⟩ := List.mem_map.mp hid
+  obtain ⟨hg, hb, hmk, hne⟩ := hall o ho
+  exact ⟨o, (getOrderFromStore_eq hh hg).1, hb, hmk, hne⟩
+
+/-- after an accepted user settlement the by-asset lookup of EVERY denom lists none of the filled orders -/
+theorem fillOrders_byAsset_clean {s s' : Store} (hinv : IndexInv s) {m : UInt32} {wb : Bool} {f : Bytes} {fu : Bool}
+    {ids : List UInt64} {total : List (Bytes × Nat)} (h : fillOrders s m wb f fu ids total = some s')
+    (d : Bytes) (id : UInt64) (hid : id ∈ ids) : id ∉ (iterateOrderIndex s' (prefixAssetToOrder d)).map (·.1) := by
+  obtain ⟨_, hgone, _, _, _, hinv'⟩ := fillOrders_frame hinv h
+  intro hb
+  obtain ⟨o, ho, _⟩ := (byAsset_exact hinv' d id).mp hb
+  rw [hgone id hid] at ho
+  cases ho
+
+/-- non-vacuity: seller `C` fills two bids for DIFFERENT asset denoms (`app`, `pea`) with one message;
+buyer `C` fills an ask; the owner may not fill its own order -/
+example :
+    let s := (run init [.mkMarket 0 "m",
+      .create ⟨0, true, 1, [65], [97, 112, 112], 6, [117], 12, [120], true, false⟩,
+      .create ⟨0, true, 1, [66], [112, 101, 97], 2, [117], 6, [121], true, false⟩,
+      .create ⟨0, false, 1, [66], [112, 101, 97], 2, [117], 6, [], true, false⟩,
+      .pay ⟨[65], 3, [66], 0, [], false, false⟩, .commit 1 [65] 5]).kv
+    (fillOrders s 1 true [67] false [1, 2] [([97, 112, 112], 6), ([112, 101, 97], 2)]).isSome = true ∧
+    (fillOrders s 1 false [67] false [3] [([117], 6)]).isSome = true ∧
+    fillOrders s 1 true [65] false [1, 2] [([97, 112, 112], 6), ([112, 101, 97], 2)] = none ∧
+    fillOrders s 1 true [67] false [1, 2] [([97, 112, 112], 8)] = none := by decide
 
 end PvProofs.C13
